@@ -393,7 +393,7 @@ def run(ctx):
         return orig_cook(self, body)
     T.BaseTemplate.cook = cook
     rng = ctx.rng
-    n = 80 if ctx.quick else 1500
+    n = 300 if ctx.quick else 1500
     for i in range(n):
         root = tempfile.mkdtemp(prefix='c16_')
         try:
@@ -403,7 +403,7 @@ def run(ctx):
             shutil.rmtree(root, ignore_errors=True)
     if ctx.shard == 0:
         layer_package_specs(ctx)
-    for i in range(25 if ctx.quick else 500):
+    for i in range(100 if ctx.quick else 500):
         root = tempfile.mkdtemp(prefix='c16l_')
         try:
             run_loader_layout(ctx, rng, root)
